@@ -581,6 +581,63 @@ func c12Growth(c *Ctx, i int, r *gen.R) {
 	}
 }
 
+// c12LongRuns: a get, then a run of sets with no get in between, then a get - for run lengths on both sides of
+// every power of two up to 2^17 and some multiples of 2^16 (whatever a library counts per owner, it counts in
+// some width).  The last get must report the value set last (or nothing, when the run began by removing the key
+// and went on setting another).
+func c12LongRuns(c *Ctx, i int, r *gen.R) {
+	t := tabular.New()
+	t.AddHeaders("h1", "h2")
+	t.AddRowItems("x", "y")
+	cell, _ := t.CellAt(tabular.CellLocation{Row: 1, Column: 1})
+	owners := []tabular.PropertyOwner{t, t.Column(0), t.Column(2), t.AllRows()[0], cell}
+	names := []string{"table", "column 0", "column 2", "row", "cell"}
+	o, name := owners[i%len(owners)], names[i%len(owners)]
+	variant := (i / len(owners)) % 3
+	vname := []string{"every set of the run goes to the key read", "the run begins by removing the key read (set to nil) and goes on setting another key", "the sets of the run alternate between the key read and another"}[variant]
+	desc := map[string]interface{}{"owner": name, "variant": vname}
+	c.Case = desc
+	c.Rec.Eval(gen.Hash64("longruns", name, fmt.Sprint(variant)), true)
+	type lk struct{ n string }
+	key, other := interface{}(&lk{"read"}), interface{}("another key")
+	var lens []int
+	for k := 1; k <= 17; k++ {
+		lens = append(lens, 1<<uint(k)-1, 1<<uint(k), 1<<uint(k)+1)
+	}
+	lens = append(lens, 2<<16, 3<<16, 3<<16+1)
+	serial := 0
+	for _, L := range lens {
+		serial++
+		o.SetProperty(key, serial)
+		if got := o.GetProperty(key); got != interface{}(serial) {
+			c.Rec.Violate("long-run:get-before-the-run:"+strings.Fields(name)[0], fmt.Sprintf("%s: GetProperty right after SetProperty(key, %d) = %v", name, serial, got), desc)
+			return
+		}
+		var want interface{}
+		for k := 1; k <= L; k++ {
+			serial++
+			switch {
+			case variant == 1 && k == 1:
+				o.SetProperty(key, nil)
+				want = nil
+			case variant == 1, variant == 2 && k%2 == 0:
+				o.SetProperty(other, serial)
+			default:
+				o.SetProperty(key, serial)
+				want = serial
+			}
+		}
+		c.Rec.Count("long_runs_of_sets_between_two_gets", 1)
+		c.Rec.Max("max:sets_between_two_gets", int64(L))
+		c.Rec.Count("property_reads_compared", 1)
+		if got := o.GetProperty(key); got != want {
+			desc["run_length"] = L
+			c.Rec.Violate("long-run:get-differs:"+strings.Fields(name)[0], fmt.Sprintf("%s, %s: a get, then %d sets, then GetProperty(key) = %v; the value most recently set is %v", name, vname, L, got, want), desc)
+			return
+		}
+	}
+}
+
 func c12Heap(c *Ctx, i int, r *gen.R) {
 	t := tabular.New()
 	t.AddRowItems("x")
@@ -619,15 +676,17 @@ func init() {
 		ID:    "C12",
 		Level: "exploration",
 		Rule: "phase 0: random histories of 10-80 steps over set / set-nil / repeated set / copy-cell-by-value / copy-column-by-value / copy-row-by-value / set properties on a cell before adding it / capture column handle / grow table (rows wider than the column bookkeeping's capacity) / extend attached row / add separator / render pass / Cell.Update / a property-carrying cell used as the item of a new cell, with a 24-key universe (three pairs of pointer keys of different types holding the same address - struct and first field, array and element 0, two field-less types -, int(1), int64(1), uint8(1), two named ints, \"1\", float64(1), true, two distinct pointers to equal structs, a struct, an array, align.PropertyType, properties.Skipable, rune, \"a\",\"b\",\"c\"); after EVERY step all (owner, accessor, key) triples are read back and compared with the reference maps. " +
-			"phase 1 (exhaustive over 5 owners x 1-3 keys): %#v dump after 2 rounds of sets must equal the dump after 52 rounds. phase 2 (solo, shard 0): 200k repeated sets must not raise the live heap by more than 4 MB. " +
+			"phase 1: 33-257 live keys on one owner. phase 2 (exhaustive over 5 owners x 3 arrangements): a get, a run of L sets without a get, a get - for L around every power of two up to 2^17 and 2x, 3x 2^16. phase 3 (exhaustive over 5 owners x 1-3 keys): %#v dump after 2 rounds of sets must equal the dump after 52 rounds. phase 4 (solo, shard 0): 200k repeated sets must not raise the live heap by more than 4 MB. " +
 			"Distinct = distinct histories; non-trivial = more than 5 steps.",
 		Assumptions: []string{
 			"non-comparable and nil keys are documented panics and are not generated",
+			"the longest run of sets between two gets is 196609: anything a library counts in 32 bits or more is out of reach of a run",
 			"live cells are re-derived through the table/row after every step (a *Cell obtained earlier is not promised to stay live when its row grows); column handles ARE promised to stay live",
 		},
 		Phases: []Phase{
 			{Name: "random property histories", N: Fixed(3000, 300000), Run: c12History},
 			{Name: "33-257 live keys on one owner x 5 owner kinds, random set / set-nil / get histories", N: Fixed(30, 3000), Run: c12ManyKeys},
+			{Name: "runs of 1 to 196609 sets between two gets (lengths around every power of two to 2^17) x 5 owner kinds x 3 arrangements", Exhaustive: true, N: Fixed(15, 15), Run: c12LongRuns},
 			{Name: "repeated sets do not change the %#v dump", Exhaustive: true, N: Fixed(15, 15), Run: c12Growth},
 			{Name: "repeated sets do not grow the heap", N: Fixed(5, 5), Run: c12Heap, Solo: true},
 		},
